@@ -579,9 +579,9 @@ def _do_op(op, detail):
         tmp = "rewritten.pyc"
         try:
             write_bytecode_file(tmp, co, magic_int, compilation_ts=1700000001, filesize=size or 0)
-            with open(tmp, "rb") as f:
-                data = f.read()
-            res["ret"] = ["rewritten", core.sha256_hex(data), canon.canon_load_result(load_module(tmp))]
+            # only the content read back is compared, not the raw bytes: for a native code object the writer
+            # calls CPython's marshal.dumps, whose FLAG_REF bits depend on reference counts in the process
+            res["ret"] = ["rewritten", canon.canon_load_result(load_module(tmp))]
         finally:
             try:
                 os.unlink(tmp)
